@@ -132,6 +132,33 @@ let run_l1 () =
     Buffer.contents buf
   with Stop s -> s
 
+(* reports as tokens: A l rl off diff f | F k | S *)
+let read_report () =
+  match word () with
+  | "A" -> let l = int () in let rl = int () in let off = int () in let diff = int () in let f = int () in
+           Applied (z_of_int l, z_of_int rl, z_of_int off, z_of_int diff, nat_of_int f)
+  | "F" -> Failed (match int () with 0 -> NoMatchingLines | 1 -> FileDoesNotExist | 2 -> CreatingFileThatExists
+                                   | 3 -> DeletingFileThatDoesNotMatch | _ -> MisorderedHunks)
+  | _ -> Skipped
+
+(* c02 <dir> <F> <nfile> <line>* <nh> <hunk>* <report>*   : C02 oracle on the implementation's reports
+   c03 <dir> <nfile> <line>* <nh> <hunk>* <report>* <nfile'> <line>*   : C03 oracle *)
+let run_c02 () =
+  let dir = if int () = 0 then Fwd else Rev in
+  let f = int () in
+  let nfile = int () in let c = times nfile (fun () -> n_of_int (int ())) in
+  let nh = int () in let hs = times nh read_hunk in
+  let rs = times nh read_report in
+  if placements_ok_N hs dir (nat_of_int f) c Z0 (Zneg XH) rs then "TRUE" else "FALSE"
+
+let run_c03 () =
+  let dir = if int () = 0 then Fwd else Rev in
+  let nfile = int () in let c = times nfile (fun () -> n_of_int (int ())) in
+  let nh = int () in let hs = times nh read_hunk in
+  let rs = times nh read_report in
+  let nfile' = int () in let c' = times nfile' (fun () -> n_of_int (int ())) in
+  if rewrite_ok_N hs dir c c' rs then "TRUE" else "FALSE"
+
 (* ---------- main loop ---------- *)
 let run_case line =
   toks := List.filter (fun s -> s <> "") (String.split_on_char ' ' line);
@@ -139,6 +166,8 @@ let run_case line =
   | "dist" -> run_dist ()
   | "distcheck" -> run_distcheck ()
   | "l1" -> run_l1 ()
+  | "c02" -> run_c02 ()
+  | "c03" -> run_c03 ()
   | k -> "UNKNOWN " ^ k
 
 let () =
